@@ -10,6 +10,13 @@ from ..linear import ctext, lin, Lin, slice_bounds
 from ..loader import AnalysisError
 from .. import stores
 
+
+def fd_of(e, f):
+    """which descriptor an expression denotes: `self.child_fd`, `self.STDIN_FILENO`, ... -- a local that holds the field counts as the field
+    (whether the number is still current after a close() is C10's question, not this property's)"""
+    return ctext(e, f, stale_ok=True)
+
+
 EXPLANATION = (
     "Static analysis of interact(): (D1) the terminal mode is saved before raw mode is entered and restored with "
     "tcsetattr(saved) in a finally clause that covers the whole copy loop; (D2) the untrimmed pending output is "
@@ -43,9 +50,11 @@ def run(R):
         rs = [k for k in calls_in(f.node) if dotted(k.func) == 'tty.tcsetattr']
         cpk = [k for k in calls_in(f.node) if callee_last(k).endswith('__interact_copy')]
         c.need(len(sv) == 1 and len(raw) == 1 and len(cpk) == 1, 'interact: tcgetattr / setraw / __interact_copy not found')
-        mv = sv[0].ast.targets[0].id
-        c.check(g.dominated_by(raw[0][0], {sv[0]})[0] and norm(sv[0].ast.value.args[0]) == norm(raw[0][1].args[0]) == 'self.STDIN_FILENO',
-                f, raw[0][1], 'the mode of STDIN is saved before raw mode is entered', tag='save-before-raw')
+        tg0 = sv[0].ast.targets[0]
+        c.need(len(sv[0].ast.targets) == 1 and isinstance(tg0, (ast.Name, ast.Attribute)), 'interact: the saved terminal mode is not kept in a local or a field')
+        mv = norm(tg0)          # where the saved mode is kept
+        c.check(g.dominated_by(raw[0][0], {sv[0]})[0] and fd_of(sv[0].ast.value.args[0], f) == fd_of(raw[0][1].args[0], f) == 'self.STDIN_FILENO',
+                f, raw[0][1], 'the mode of STDIN is saved, by this call, before raw mode is entered (on every path)', tag='save-before-raw')
         infin = False
         for k in rs:
             for p in parent_chain(k):
@@ -54,13 +63,18 @@ def run(R):
                     infin = True
         c.check(bool(rs) and infin, f, rs[0] if rs else cpk[0], 'the terminal mode is restored in a finally clause covering the copy loop (escape, child exit and exceptions all restore it)',
                 witness='tcsetattr calls: %d, inside covering finally: %s' % (len(rs), infin), kind='ast', tag='restore-finally')
-        ok = len(rs) == 1 and len(rs[0].args) == 3 and norm(rs[0].args[0]) == 'self.STDIN_FILENO' and is_name(rs[0].args[2], mv)
+        ok = len(rs) == 1 and len(rs[0].args) == 3 and fd_of(rs[0].args[0], f) == 'self.STDIN_FILENO' and \
+            (norm(rs[0].args[2]) == mv or ctext(rs[0].args[2], f, stale_ok=True) == mv)
         c.check(ok, f, rs[0] if rs else None, 'what is restored is the saved mode, on STDIN', witness=norm(rs[0]) if rs else '', kind='ast', tag='restore-saved')
-        mods = [n for n in g.nodes if n.kind == 'stmt' and mv in assigned_names(n.ast) and n is not sv[0]]
-        c.check(not mods, f, mods[0].ast if mods else None, 'the saved mode is not overwritten', kind='ast', tag='saved-stable')
-        # raw mode is entered before the try (so the finally does not "restore" a mode that was never changed on failure of tcgetattr)
+        rnodes = set(n for n, k in cfg_nodes_with_call(f, lambda k: dotted(k.func) == 'tty.tcsetattr'))
+        mods = [n for n in g.nodes if n.kind == 'stmt' and isinstance(n.ast, (ast.Assign, ast.AugAssign, ast.Delete)) and n is not sv[0]
+                and any(norm(t_) == mv for t_ in (assigned_targets(n.ast) if not isinstance(n.ast, ast.Delete) else n.ast.targets))
+                and any(g.path(n, r_, skip_labels=()) is not None for r_ in rnodes)]
+        c.check(not mods, f, mods[0].ast if mods else None, 'the saved mode is not overwritten before it is restored', kind='ast', tag='saved-stable')
+        # the mode is saved before the protected region (a failing tcgetattr inside it would make the finally clause "restore" a mode that was
+        # never taken -- a NameError masking the real error); raw mode itself may be entered before or inside the region
         trs = [p for p in parent_chain(cpk[0]) if isinstance(p, ast.Try)]
-        c.check(bool(trs) and not any(raw[0][1] is d for d in ast.walk(trs[0])), f, raw[0][1], 'setraw happens before the protected region', kind='ast', tag='raw-before-try')
+        c.check(bool(trs) and not any(sv[0].ast is d for d in ast.walk(trs[0])), f, sv[0].ast, 'the mode is saved before the protected region', kind='ast', tag='raw-before-try')
     with R.clause('D2', 'ORDER', floor=4, desc='pending output is shown first (untrimmed), then both stores are emptied, then raw mode') as c:
         g = f.cfg
         ws = cfg_nodes_with_call(f, lambda k: callee_last(k) == 'write_to_stdout')
@@ -94,7 +108,7 @@ def run(R):
         c.need(len(hs) == 1, 'expected one handler')
         h = hs[0]
         hn = h.name or 'err'
-        crd = [n for n, k in cfg_nodes_with_call(cp, lambda k: callee_last(k).endswith('__interact_read') and norm(k.args[0]) == 'self.child_fd')]
+        crd = [n for n, k in cfg_nodes_with_call(cp, lambda k: callee_last(k).endswith('__interact_read') and fd_of(k.args[0], cp) == 'self.child_fd')]
         c.need(len(crd) == 1 and isinstance(crd[0].ast, ast.Assign) and isinstance(crd[0].ast.targets[0], ast.Name), 'child read not found')
         cv = crd[0].ast.targets[0].id
         io_ = set(firsts) | set(n for n, k in cfg_nodes_with_call(cp, lambda k: dotted(k.func) == 'os.write' or callee_last(k) in ('_log', '_log_control') or
@@ -126,7 +140,7 @@ def run(R):
         c.check(p_ is None, cp, crd[0].ast, 'an empty read from the child ends interact', witness=('goes on: ' + g.describe_path(p_)) if p_ else None, kind='path', tag='empty-break')
         # a non-empty read never ends it, whatever a filter makes of the data afterwards
         hdr_ = g.node_of_stmt(loops[0])
-        kbd = set(n for n, k in cfg_nodes_with_call(cp, lambda k: callee_last(k).endswith('__interact_read') and norm(k.args[0]) != 'self.child_fd'))
+        kbd = set(n for n, k in cfg_nodes_with_call(cp, lambda k: callee_last(k).endswith('__interact_read') and fd_of(k.args[0], cp) != 'self.child_fd'))
         p_ = g.path(crd[0], {g.exit}, avoid=set(firsts) | kbd | {crd[0], hdr_}, skip_labels=('exc',), include_start=False, assume=emptiness_facts(cv, False))
         c.check(p_ is None, cp, crd[0].ast, 'the empty-read (end of stream) test is applied to the raw read, before any filter: a filter that returns b"" '
                 '(e.g. one hiding a password) must not end interact()', witness=('leaves the loop: ' + g.describe_path(p_)) if p_ else None, kind='path',
@@ -139,16 +153,16 @@ def check_copy(c, cp, wr):
     reads = cfg_nodes_with_call(cp, lambda k: callee_last(k).endswith('__interact_read'))
     c.need(len(reads) == 2 and all(isinstance(n.ast, ast.Assign) for n, k in reads), '__interact_copy: two reads expected')
     for n, k in reads:
-        srcfd = norm(k.args[0])
+        srcfd = fd_of(k.args[0], cp)
         v = n.ast.targets[0].id
         if srcfd == 'self.child_fd':
             guard = [t for t in g.nodes if t.kind == 'test' and compare_parts(t.ast) and isinstance(compare_parts(t.ast)[1], ast.In)
-                     and norm(compare_parts(t.ast)[0]) == 'self.child_fd' and isinstance(compare_parts(t.ast)[2], ast.Name)]
+                     and fd_of(compare_parts(t.ast)[0], cp) == 'self.child_fd' and isinstance(compare_parts(t.ast)[2], ast.Name)]
             c.check(len(guard) == 1 and n in guard_region(g, guard[0], 'true'), cp, k, 'the child is read only when it is readable', tag='child-ready')
             outs = cfg_nodes_with_call(cp, lambda kk: dotted(kk.func) == 'os.write')
             c.need(len(outs) == 1, 'os.write to stdout not found')
             on, ok_ = outs[0]
-            c.check(norm(ok_.args[0]) == 'self.STDOUT_FILENO' and is_name(ok_.args[1], v), cp, ok_,
+            c.check(fd_of(ok_.args[0], cp) == 'self.STDOUT_FILENO' and is_name(ok_.args[1], v), cp, ok_,
                     'what was read from the child is what is written to the user\'s stdout', witness=norm(ok_), kind='flow', tag='child-to-stdout')
             check_only_filter(c, cp, g, n, on, v, 'output_filter', 'child-filter')
             # every non-empty read reaches the write: no feasible way from the read, with a non-empty result, to the next read or out
@@ -158,7 +172,7 @@ def check_copy(c, cp, wr):
             c.check(p is None, cp, ok_, 'every non-empty chunk from the child reaches stdout before the next read', witness=g.describe_path(p) if p else None, tag='child-delivered')
         elif 'STDIN' in srcfd:
             guard = [t for t in g.nodes if t.kind == 'test' and compare_parts(t.ast) and isinstance(compare_parts(t.ast)[1], ast.In)
-                     and norm(compare_parts(t.ast)[0]) == 'self.STDIN_FILENO' and isinstance(compare_parts(t.ast)[2], ast.Name)]
+                     and fd_of(compare_parts(t.ast)[0], cp) == 'self.STDIN_FILENO' and isinstance(compare_parts(t.ast)[2], ast.Name)]
             c.check(len(guard) == 1 and n in guard_region(g, guard[0], 'true'), cp, k, 'the keyboard is read only when it is readable', tag='stdin-ready')
             ws = cfg_nodes_with_call(cp, lambda kk: callee_last(kk).endswith('__interact_writen'))
             c.need(len(ws) >= 1, 'no write towards the child found')
@@ -166,7 +180,7 @@ def check_copy(c, cp, wr):
                 a1 = wk.args[1]
                 as_read = is_name(a1, v) or (isinstance(a1, ast.Subscript) and is_name(a1.value, v) and slice_bounds(a1) is not None
                                              and slice_bounds(a1)[0] is None and slice_bounds(a1)[2] is None)     # v or the prefix v[:i] (escape branch, checked by D4)
-                c.check(norm(wk.args[0]) == 'self.child_fd' and as_read, cp, wk, 'keyboard input goes to the child\'s descriptor, as read',
+                c.check(fd_of(wk.args[0], cp) == 'self.child_fd' and as_read, cp, wk, 'keyboard input goes to the child\'s descriptor, as read',
                         witness=norm(wk), kind='flow', tag='stdin-to-child:%d' % ws.index((wn, wk)))
             check_only_filter(c, cp, g, n, None, v, 'input_filter', 'stdin-filter')
             okp, p = g.must_pass(n, {nn for nn, _ in reads if nn is not n} | {g.exit}, set(wn for wn, _ in ws), skip_labels=('exc',),
